@@ -99,10 +99,9 @@ func NewServerDnsListener(topDomain string, comm ServerCommunicator) *ServerDnsL
 				}
 
 				if u.lastConnection.Add(OldConnectionTimeout).Before(now) {
-					// Remove connection from our list
+					// Forget the retired connection; the live slot may belong to a newer session by now
 					log.Infof("Removing stale old connection for user %d (%s)", u.UserId, u.remoteAddress)
-					srv.connections[u.UserId] = nil
-					srv.oldConnections[u.UserId] = u
+					srv.oldConnections[u.UserId] = nil
 				}
 			}
 
